@@ -3,6 +3,7 @@ From Coq Require Import ZArith List String Bool Permutation.
 Import ListNotations.
 From TD Require Import Model.C17_Inverse Proofs.C17_InverseP Gen.C17_registry Model.C17_Elem Proofs.C17_ElemP Proofs.C17_SpellP.
 From TD Require Import Model.C17_Ctx Proofs.C17_CtxP.
+From TD Require Import Model.C04_Tree Model.C04_Ops Model.C17_Tree Proofs.C17_TreeP Model.C17_Keys Proofs.C17_KeysP.
 Open Scope string_scope.
 Open Scope Z_scope.
 
@@ -54,7 +55,7 @@ Theorem C17_spellings_unflatten : forall d sz sh n,
   let r := reverse "unflatten" {| pos := [VInt d; VInts sz]; kw := [] |} sh n in
   reverse "unflatten" {| pos := [VInt d]; kw := [("unflattened_size", VInts sz)] |} sh n = r
   /\ reverse "unflatten" {| pos := []; kw := [("dim", VInt d); ("unflattened_size", VInts sz)] |} sh n = r
-  /\ r = CFlatten (norm d (zlen sh)) (norm d (zlen sh) + zlen sz - 1).
+  /\ r = (if zlen sz =? 1 then CIdentity else CFlatten (norm d (zlen sh)) (norm d (zlen sh) + zlen sz - 1)).
 Proof. exact unflatten_spellings. Qed.
 Print Assumptions C17_spellings_unflatten.
 
@@ -146,26 +147,30 @@ Print Assumptions C17_nested_blocks.
    multi-index i of the original comes back to i, and every valid multi-index j of the yielded object is written back to
    the one position of the original it is the image of.  For every rank, every dims, every argument spelling
    (python's binding [forward_call] vs the re-parsing [reverse] of the recorded (args, kwargs)). *)
-Theorem C17_elem_roundtrip : forall op, In op ["transpose"; "permute"; "view"; "flatten"; "squeeze"; "unsqueeze"] ->
+Theorem C17_elem_roundtrip : forall op, In op ["transpose"; "permute"; "view"; "flatten"; "unflatten"; "squeeze"; "unsqueeze"] ->
   forall s sh c ysh, Forall (fun x => 0 <= x) sh -> forward_call op s = Some c -> shape_of c sh = Some ysh ->
     undoes c (reverse op s sh (zlen ysh)) sh ysh.
 Proof. exact elem_roundtrip. Qed.
 Print Assumptions C17_elem_roundtrip.
 
-(* unflatten: full statement, false of the code (D201) *)
+(* unflatten: the full statement holds of the repaired _reverse_unflatten (D201; Model/C17_Inverse.v::fixed_D201) ... *)
 Definition C17_elem_roundtrip_unflatten_full_statement : Prop :=
   forall s sh c ysh, Forall (fun x => 0 <= x) sh -> forward_call "unflatten" s = Some c -> shape_of c sh = Some ysh ->
     undoes c (reverse "unflatten" s sh (zlen ysh)) sh ysh.
-Theorem C17_elem_roundtrip_unflatten_partial : forall s sh c ysh,
+Theorem C17_elem_roundtrip_unflatten : C17_elem_roundtrip_unflatten_full_statement.
+Proof. exact elem_roundtrip_unflatten. Qed.
+Print Assumptions C17_elem_roundtrip_unflatten.
+(* ... and was false of the unrepaired one ([reverse_with false]) for a size of length 1 *)
+Theorem C17_elem_roundtrip_unflatten_unrepaired_partial : forall s sh c ysh,
   Forall (fun x => 0 <= x) sh -> forward_call "unflatten" s = Some c -> shape_of c sh = Some ysh -> (2 <= unflat_len c)%nat ->
-  undoes c (reverse "unflatten" s sh (zlen ysh)) sh ysh.
-Proof. exact elem_roundtrip_unflatten_partial. Qed.
-Print Assumptions C17_elem_roundtrip_unflatten_partial.
-Theorem C17_elem_roundtrip_unflatten_refuted : exists s sh c ysh,
+  undoes c (reverse_with false "unflatten" s sh (zlen ysh)) sh ysh.
+Proof. exact elem_roundtrip_unflatten_unrepaired_partial. Qed.
+Print Assumptions C17_elem_roundtrip_unflatten_unrepaired_partial.
+Theorem C17_elem_roundtrip_unflatten_unrepaired_refuted : exists s sh c ysh,
   Forall (fun x => 0 <= x) sh /\ forward_call "unflatten" s = Some c /\ shape_of c sh = Some ysh
-  /\ shape_of (reverse "unflatten" s sh (zlen ysh)) ysh = None.
-Proof. exact elem_roundtrip_unflatten_refuted. Qed.
-Print Assumptions C17_elem_roundtrip_unflatten_refuted.
+  /\ shape_of (reverse_with false "unflatten" s sh (zlen ysh)) ysh = None.
+Proof. exact elem_roundtrip_unflatten_unrepaired_refuted. Qed.
+Print Assumptions C17_elem_roundtrip_unflatten_unrepaired_refuted.
 
 (* per operation, on normalised calls: what the reverse call must be *)
 Theorem C17_undoes_view : forall l sh ysh, Forall (fun x => 0 <= x) sh -> shape_of (CView l) sh = Some ysh ->
@@ -230,6 +235,91 @@ Theorem C17_reenter_with_clearing_enter_refuted : exists o rc o1 o2,
 Proof. exact reenter_with_clearing_enter_refuted. Qed.
 Print Assumptions C17_reenter_with_clearing_enter_refuted.
 
+(* ------------------------------------------------------------------ write-back on trees (deepening round, part 2) *)
+(* locked original (out.update_(inv)): keys, order, nesting and every leaf OBJECT are the original's; a leaf's content is the
+   yielded object's where it has a leaf at the same path, unchanged elsewhere; nothing is created *)
+Theorem C17_writeback_tree_locked : forall out inv r,
+  writeback_t true out inv = Some r ->
+  skel_es r = skel_es out
+  /\ forall p, kfind p r = match kfind p out with
+                           | Some (s, c0) => Some (s, match kfind p inv with Some (_, c') => c' | None => c0 end)
+                           | None => None
+                           end.
+Proof. exact writeback_t_locked. Qed.
+Print Assumptions C17_writeback_tree_locked.
+Theorem C17_writeback_tree_locked_no_new_leaf : forall out inv r p,
+  writeback_t true out inv = Some r -> kfind p out = None -> kfind p r = None.
+Proof. exact writeback_t_locked_no_new_leaf. Qed.
+Print Assumptions C17_writeback_tree_locked_no_new_leaf.
+Theorem C17_writeback_tree_locked_disjoint : forall out inv,
+  kleaves_es inv <> [] -> (forall pl, In pl (kleaves_es inv) -> kfind (fst pl) out = None) -> writeback_t true out inv = None.
+Proof. exact writeback_t_locked_disjoint. Qed.
+Print Assumptions C17_writeback_tree_locked_disjoint.
+(* unlocked original (out.update(inv, inplace=False)): keys = old, in place, then new; an entry the yielded object does not
+   have is the same object (frame); an entry it has is the nested update when both are nodes, the yielded object's otherwise *)
+Theorem C17_writeback_tree_unlocked_keys : forall inv out, NoDup (map fst inv) ->
+  map fst (update_t out inv)
+  = (map fst out ++ filter (fun k => negb (existsb (String.eqb k) (map fst out))) (map fst inv))%list.
+Proof. exact update_t_keys. Qed.
+Print Assumptions C17_writeback_tree_unlocked_keys.
+Theorem C17_writeback_tree_unlocked_frame : forall inv out k, ~ In k (map fst inv) -> kget k (update_t out inv) = kget k out.
+Proof. exact update_t_frame. Qed.
+Print Assumptions C17_writeback_tree_unlocked_frame.
+Theorem C17_writeback_tree_unlocked_entry : forall inv out k w, NoDup (map fst inv) -> In (k, w) inv ->
+  kget k (update_t out inv)
+  = match w, kget k out with
+    | KNode sub, Some (KNode tsub) => Some (KNode (update_t tsub sub))
+    | _, _ => Some w
+    end.
+Proof. exact update_t_entry. Qed.
+Print Assumptions C17_writeback_tree_unlocked_entry.
+
+(* ------------------------------------------------------------------ flatten_keys / unflatten_keys on key trees *)
+(* key.split(sep) gives back the components separator.join was given, under the EXACT condition [clean_path]: str.split
+   matches leftmost, so no occurrence of sep may start inside a component — also not one that straddles the joint *)
+Theorem C17_split_join : forall sep, sep <> "" -> forall p, clean_path sep p = true -> split sep (join sep p) = p.
+Proof. exact split_join. Qed.
+Print Assumptions C17_split_join.
+(* for a separator of ONE character "no component contains it" is that condition *)
+Theorem C17_clean_path_char : forall c p, no_sep_inside (String c "") p = true -> clean_path (String c "") p = true.
+Proof. exact clean_path_char. Qed.
+Print Assumptions C17_clean_path_char.
+(* ... for longer separators it is not *)
+Theorem C17_split_join_multichar_refuted : exists sep p,
+  sep <> "" /\ no_sep_inside sep p = true /\ split sep (join sep p) <> p /\ clean_path sep p = false.
+Proof. exact split_join_multichar_refuted. Qed.
+Print Assumptions C17_split_join_multichar_refuted.
+(* every leaf name of the flattened object is taken by unflatten_keys for exactly the path the leaf has in the original (same
+   order); in particular an entry added as "a<sep>b<sep>c" is the nested key (a, b, c) *)
+Theorem C17_paths_roundtrip : forall sep es, sep <> "" ->
+  (forall pv, In pv (leaves true [] (Node es)) -> clean_path sep (fst pv) = true) ->
+  unflat_paths sep (flat_names sep es) = leaves true [] (Node es).
+Proof. exact paths_roundtrip. Qed.
+Print Assumptions C17_paths_roundtrip.
+Theorem C17_paths_roundtrip_char : forall c es,
+  (forall pv, In pv (leaves true [] (Node es)) -> no_sep_inside (String c "") (fst pv) = true) ->
+  unflat_paths (String c "") (flat_names (String c "") es) = leaves true [] (Node es).
+Proof. exact paths_roundtrip_char. Qed.
+Print Assumptions C17_paths_roundtrip_char.
+Theorem C17_added_key_path : forall sep p, sep <> "" -> clean_path sep p = true -> py_key_path sep (join sep p) = p.
+Proof. exact added_key_path. Qed.
+Print Assumptions C17_added_key_path.
+(* what happens otherwise, through the real flatten / unflatten functions (C04's models) *)
+Theorem C17_keys_roundtrip_multichar_refuted : exists sep es y inv,
+  flatten_out sep es = Ok y /\ unflatten_in sep y = (inv, None)
+  /\ leafpaths es = [(["a"; "b"], Leaf LT 1)] /\ leafpaths inv = [([""; "ab"], Leaf LT 1)].
+Proof. exact keys_roundtrip_multichar_refuted. Qed.
+Print Assumptions C17_keys_roundtrip_multichar_refuted.
+Theorem C17_keys_roundtrip_key_with_sep_refuted : exists es y inv,
+  flatten_out "." es = Ok y /\ unflatten_in "." y = (inv, None)
+  /\ leafpaths es = [(["a.b"], Leaf LT 1)] /\ leafpaths inv = [(["a"; "b"], Leaf LT 1)].
+Proof. exact keys_roundtrip_key_with_sep_refuted. Qed.
+Print Assumptions C17_keys_roundtrip_key_with_sep_refuted.
+Theorem C17_keys_roundtrip_empty_node_refuted : exists es y inv,
+  flatten_out "." es = Ok y /\ unflatten_in "." y = (inv, None) /\ map fst es = ["a"; "n"] /\ map fst inv = ["a"].
+Proof. exact keys_roundtrip_empty_node_refuted. Qed.
+Print Assumptions C17_keys_roundtrip_empty_node_refuted.
+
 (* non-vacuity *)
 Example C17_ex_permute : Permutation [2; 0; 1] (map Z.of_nat (seq 0 3))
   /\ sh_permute (sh_permute [5; 6; 7] [2; 0; 1]) (inv_perm [2; 0; 1]) = [5; 6; 7].
@@ -263,4 +353,25 @@ Qed.
 Example C17_ex_writeback_locked_new_key :
   writeback true [("a", (0%nat, 10))] [("a", (100%nat, 500)); ("z", (101%nat, 501))] = Some [("a", (0%nat, 500))]
   /\ writeback true [("a", (0%nat, 10))] [("z", (101%nat, 501))] = None.
+Proof. split; reflexivity. Qed.
+Example C17_ex_unflatten_len1 :
+  forward_call "unflatten" {| pos := [VInt 0; VInts [6]]; kw := [] |} = Some (CUnflatten 0 [6])
+  /\ shape_of (CUnflatten 0 [6]) [6; 4] = Some [6; 4]
+  /\ reverse "unflatten" {| pos := [VInt 0; VInts [6]]; kw := [] |} [6; 4] 2 = CIdentity
+  /\ reverse_with false "unflatten" {| pos := [VInt 0; VInts [6]]; kw := [] |} [6; 4] 2 = CFlatten 0 0.
+Proof. repeat split; reflexivity. Qed.
+Example C17_ex_clean_path : clean_path "." ["a"; "b"; "c"] = true /\ split "." (join "." ["a"; "b"; "c"]) = ["a"; "b"; "c"]
+  /\ clean_path "::" ["a:"; "b"] = false /\ split "::" (join "::" ["a:"; "b"]) = ["a"; ":b"].
+Proof. repeat split; reflexivity. Qed.
+Example C17_ex_block_added_nested :
+  flatten_keys_block "." false [("a", Leaf LT 1); ("n", Node [("b", Leaf LT 2)])] [("p.q.r", Leaf LT 9)]
+  = BOk [("a", KLeaf 1 1); ("n", KNode [("b", KLeaf 2 2)]); ("p", KNode [("q", KNode [("r", KLeaf 9 9)])])]
+  /\ flatten_keys_block "." true [("a", Leaf LT 1); ("n", Node [("b", Leaf LT 2)])] [("p.q.r", Leaf LT 9)]
+  = BOk [("a", KLeaf 1 1); ("n", KNode [("b", KLeaf 2 2)])].
+Proof. split; reflexivity. Qed.
+Example C17_ex_writeback_tree :
+  writeback_t true [("a", KLeaf 1 10); ("n", KNode [("b", KLeaf 2 20)])] [("n", KNode [("b", KLeaf 7 99); ("z", KLeaf 8 5)])]
+  = Some [("a", KLeaf 1 10); ("n", KNode [("b", KLeaf 2 99)])]
+  /\ writeback_t false [("a", KLeaf 1 10); ("n", KNode [("b", KLeaf 2 20)])] [("n", KNode [("b", KLeaf 7 99); ("z", KLeaf 8 5)])]
+  = Some [("a", KLeaf 1 10); ("n", KNode [("b", KLeaf 7 99); ("z", KLeaf 8 5)])].
 Proof. split; reflexivity. Qed.
